@@ -33,6 +33,8 @@ What is a site (one row per syntactic occurrence):
                     set-valued expression (set(...), {..}, set-comprehension,
                     a - b / a | b / a & b / a ^ b on sets or .keys(), the hand-listed
                     set-returning APIs, or a local name bound to one of those)
+  owns-state /      Search.__init__: self._problem = copy.deepcopy(problem) present /   seeded /
+  shared-state      absent (ConfigSpace's generator shared with other searches)         osEntropy
   clock             time.time()/perf_counter()/monotonic()/strftime()/...,        clock
                     datetime.now()/utcnow()/today()
   entropy           os.urandom / uuid.uuid1/uuid4 / secrets.* / os.getpid / id()  osEntropy
@@ -672,8 +674,9 @@ REACH_RULES = [
     dict(name="moo-unseeded-ctor", file="skopt/moo/_multiobjective.py", func="MoScalarFunction.__init__", kind="rng-ctor-noseed",
          reach="unreachable",
          why="Optimizer._moo_scalarize always passes random_state=self.rng (a RandomState instance), so the `else` branch is not taken "
-             "(guard: that keyword is still present in optimizer.py)",
-         guard=lambda src: _has_text(src, "skopt/optimizer/optimizer.py", r"moo_functions\[\s*self\._moo_scalarization_strategy\s*\]\(.*?random_state=self\.rng")),
+             "(guard: that keyword is still present in optimizer.py and MoScalarFunction still has the branch that adopts a RandomState)",
+         guard=lambda src: _both(_has_text(src, "skopt/optimizer/optimizer.py", r"moo_functions\[\s*self\._moo_scalarization_strategy\s*\]\(.*?random_state=self\.rng"),
+                                 _has_text(src, "skopt/moo/_multiobjective.py", r"isinstance\(random_state, np\.random\.RandomState\):\s*\n\s*self\._rng = random_state"))),
     dict(name="space-sdv-new-names", file="skopt/space/space.py", func="Space.rvs", kind="set-order",
          reach="outOfScope",
          why="only with a generative model (CBO.fit_generative_model, transfer learning) on a ConfigSpace-sampled space; transfer "
@@ -797,6 +800,37 @@ def classify(sites, src: Path, extra_rules=()):
     return notes
 
 
+def _state_ownership(trees, src):
+    """`Search.__init__` must take a PRIVATE copy of the problem: the ConfigurationSpace carries its own generator
+    (`space.random`, reseeded by `space.seed(..)`); without `copy.deepcopy(problem)` that generator is shared with the
+    caller's problem object and with every other search built from it, i.e. it is an input this search does not control.
+    Row `owns-state` (seeded) when the deep copy is there, `shared-state` (hidden stream) otherwise."""
+    f = src / "deephyper" / "hpo" / "_search.py"
+    tree = trees.get(f)
+    out = []
+    if tree is None:
+        return out
+    for cls in [n for n in tree.body if isinstance(n, ast.ClassDef) and n.name == "Search"]:
+        for fn in [n for n in cls.body if isinstance(n, ast.FunctionDef) and n.name == "__init__"]:
+            found = False
+            for node in ast.walk(fn):
+                if isinstance(node, ast.Assign) and any(_dotted(t) == "self._problem" for t in node.targets):
+                    found = True
+                    v = node.value
+                    deep = isinstance(v, ast.Call) and (_dotted(v.func) or "").split(".")[-1] == "deepcopy"
+                    if deep:
+                        out.append(Site("hpo/_search.py", node.lineno, node.col_offset, "Search.__init__", "owns-state", _txt(node), "seeded",
+                                        "private deep copy of the problem: ConfigSpace's generator belongs to this search"))
+                    else:
+                        out.append(Site("hpo/_search.py", node.lineno, node.col_offset, "Search.__init__", "shared-state", _txt(node), "osEntropy",
+                                        "the problem (and ConfigSpace's generator inside it) is shared with the caller and with other "
+                                        "searches built from the same object: their draws interleave with this search's"))
+            if not found:
+                out.append(Site("hpo/_search.py", fn.lineno, fn.col_offset, "Search.__init__", "shared-state", "<no assignment to self._problem>",
+                                "osEntropy", "Search.__init__ no longer stores a private copy of the problem"))
+    return out
+
+
 # --------------------------------------------------------------------------- entry points
 
 
@@ -810,6 +844,7 @@ def scan(src_root, extra_rules=()) -> Scan:
         v = _FileScan(rel, trees[f], rng_funcs)
         v.visit(trees[f])
         sites.extend(v.sites)
+    sites.extend(_state_ownership(trees, src))
     # one row per (file, line, col, kind)
     uniq = {}
     for s in sites:
